@@ -22,6 +22,33 @@ args = sys.argv[1:]
 BENIGN = args[:1] == ["--benign"]
 if BENIGN:
     args = args[1:]
+TARGETED = False
+if args[:1] == ["--targeted"]:
+    # run, per patch, only the checks whose rules read the files the patch touches (and, for seeds, the seed's own property)
+    TARGETED = True
+    args = args[1:]
+FILE_PROPS = [("html5ever/src/tokenizer/char_ref", "C01 C03 C07 C09 C14"), ("html5ever/src/tokenizer", "C01 C03 C04 C07 C08 C09 C14 C19"),
+              ("xml5ever/src/tokenizer", "C04 C08 C14 C15 C16 C17"), ("html5ever/src/tree_builder", "C02 C03 C04 C05 C06 C07 C08 C09 C18 C19"),
+              ("xml5ever/src/tree_builder", "C04 C05 C16 C17 C18"), ("html5ever/src/serialize", "C07"), ("xml5ever/src/serialize", "C17"),
+              ("html5ever/src/driver", "C03 C04 C10 C19"), ("xml5ever/src/driver", "C04 C15"), ("html5ever/src/encoding", "C04 C19"),
+              ("tendril/", "C10 C11 C12 C13 C04"), ("rcdom/", "C04 C06 C07 C17 C20"), ("markup5ever/util", "C13 C07 C04 C03"), ("markup5ever/", "C05 C07 C17 C19 C04"),
+              ("web_atoms/", "C14 C02 C04")]
+
+
+def props_for(patch, own=None):
+    txt = open(patch).read()
+    files = [l.split(" b/", 1)[1].strip() for l in txt.splitlines() if l.startswith("diff --git ") and " b/" in l]
+    out = set([own] if own else [])
+    for f in files:
+        for pre, ps in FILE_PROPS:
+            if f.startswith(pre):
+                out.update(ps.split())
+                break
+        else:
+            return list(claimed)
+    return [c for c in claimed if c in out]
+
+
 jobs = 4
 if args[:1] == ["-j"]:
     jobs = int(args[1])
@@ -58,9 +85,9 @@ def copy_repo(dst):
     subprocess.check_call(["rsync", "-a", "--exclude", "/target", "--exclude", "/.git", "/repo/", dst + "/"])
 
 
-def run_checks(env, tier="quick"):
+def run_checks(env, tier="quick", only=None):
     hits = {}
-    for p in claimed:
+    for p in (only if only is not None else claimed):
         out = subprocess.run(["./check", p, "--tier", tier], capture_output=True, text=True, env=env, cwd=SNAP)
         if out.returncode != 0:
             hits[p] = [l.strip()[:240] for l in out.stdout.splitlines() if l.strip().startswith("violated")][:12] or [out.stderr[-200:]]
@@ -98,7 +125,7 @@ def worker(i):
                         res[s] = {"error": "does not compile: " + b.stderr[-300:]}
                         print(s, "DOES NOT COMPILE", flush=True)
                     continue
-                hits = run_checks(env)
+                hits = run_checks(env, only=props_for(patch) if TARGETED else None)
                 if "tendril/src/stream.rs" in open(patch).read() or "tendril/src/utf8_decode.rs" in open(patch).read():
                     # the encoding_rs rules (R10.6, R10.9) exist in the thorough tier only: run it for patches that touch the decoders
                     out = subprocess.run(["./check", "C10", "--tier", "thorough"], capture_output=True, text=True, env=env, cwd=SNAP)
@@ -110,8 +137,8 @@ def worker(i):
                 continue
             mp = os.path.join(V, "seeded", s, "meta.json")
             tier = json.load(open(mp)).get("tier", "quick") if os.path.exists(mp) else "quick"
-            hits = run_checks(env, tier)
             own = s.split("-")[0]
+            hits = run_checks(env, tier, only=props_for(patch, own) if TARGETED else None)
             with lock:
                 res[s] = {"caught_by": sorted(hits), "own_property_alarm": own in hits, "detail": hits}
                 print("%-7s own=%-5s caught_by=%s" % (s, own in hits, ",".join(sorted(hits)) or "-"), flush=True)
